@@ -17,3 +17,5 @@ import Dsi.Props.C10
 import Dsi.Props.C16
 import Dsi.Props.C05
 import Dsi.Props.EndToEnd
+import Dsi.Props.C15
+import Dsi.Props.C20
